@@ -7,7 +7,8 @@ import HickoryVerif.Proofs.C04
 namespace HickoryVerif.Upd
 open HickoryVerif
 
-theorem Rec.dataEq_iff (a b : Rec) : a.dataEq b = true ↔ a.rtype = b.rtype ∧ a.rdata = b.rdata := by
+theorem Rec.dataEq_iff (a b : Rec) : a.dataEq b = true ↔
+    a.rtype = b.rtype ∧ RData.norm a.rtype a.rdata = RData.norm b.rtype b.rdata := by
   simp [Rec.dataEq]
 
 theorem Rec.dataEq_refl (a : Rec) : a.dataEq a = true := by simp [Rec.dataEq]
